@@ -115,6 +115,15 @@ class FAtoms:
     def indices(self):
         return np.array(self.idx, dtype=int)
 
+    def __getitem__(self, k):
+        """AtomGroup indexing: slices, integer lists / arrays -> AtomGroup over the same universe"""
+        if isinstance(k, slice):
+            return FAtoms(self.u, self.idx[k])
+        if isinstance(k, (list, tuple, np.ndarray)):
+            ks = [int(i) for i in np.asarray(k).reshape(-1)]
+            return FAtoms(self.u, [self.idx[i] for i in ks])
+        raise Unsupported("a single Atom (integer index into an AtomGroup) is not modelled")
+
     @property
     def n_atoms(self):
         return len(self.idx)
@@ -337,6 +346,14 @@ def models_selftest(seed=0, rounds=5):
             rm, fm = Merge(ru1.atoms, rc.atoms), FMerge(fu1.atoms, fc.atoms)
             assert np.allclose(rm.atoms.positions, np.asarray(fm.atoms.positions, dtype=float), atol=1e-4); n += 1
             assert list(rm.atoms.names) == fm.atoms.names; n += 1
+            # slices of an atom group act on the universe they come from
+            if k1 + k2 >= 2:
+                rm.atoms[1:].translate(t); fm.atoms[1:].translate(t)
+                assert np.allclose(rm.atoms.positions, np.asarray(fm.atoms.positions, dtype=float), atol=1e-4); n += 1
+                rm2, fm2 = rm.copy(), fm.copy()
+                rm2.atoms[:1].translate(t); fm2.atoms[:1].translate(t)
+                assert np.allclose(rm.atoms.positions, np.asarray(fm.atoms.positions, dtype=float), atol=1e-4); n += 1     # a copy is independent
+                assert np.allclose(rm2.atoms.positions, np.asarray(fm2.atoms.positions, dtype=float), atol=1e-4); n += 1
             rc.atoms.translate(t)  # the merged universe does not follow its sources
             fc.atoms.translate(t)
             assert np.allclose(rm.atoms.positions, np.asarray(fm.atoms.positions, dtype=float), atol=1e-4); n += 1
